@@ -13,6 +13,7 @@ import (
 	"sync"
 
 	"github.com/keybase/saltpack"
+	"github.com/keybase/saltpack/basic"
 	"github.com/keybase/saltpack/encoding/basex"
 )
 
@@ -47,6 +48,33 @@ func raceWorker(seed uint64, iters, goroutines int) int {
 	for i, f := range fx {
 		rings[i] = makeRing(keysOf(f.p), "all", signersOf(f.p))
 	}
+	// one keyring of package basic shared by all goroutines: four box keys, a message to each as a HIDDEN
+	// recipient (trial decryption walks GetAllBoxSecretKeys) and a signcrypted message to each
+	sharedBasic := basic.NewKeyring()
+	type hiddenMsg struct{ enc, sc, msg []byte }
+	var hidden []hiddenMsg
+	{
+		var sks [][]byte
+		for i := 0; i < 4; i++ {
+			sk := r.Bytes(32)
+			sks = append(sks, sk)
+			var sp, pp [32]byte
+			copy(sp[:], sk)
+			copy(pp[:], boxPk(sk))
+			sharedBasic.ImportBoxKey(&pp, &sp)
+		}
+		signer := sigSecretFromBytes(h.randSigKey())
+		for _, sk := range sks {
+			msg := r.Bytes(40)
+			enc, e1 := saltpack.Seal(saltpack.Version2(), msg, boxSecretFromBytes(r.Bytes(32)), []saltpack.BoxPublicKey{boxPubFromBytes(boxPk(sk), true)})
+			sc, e2 := saltpack.SigncryptSeal(msg, sharedBasic, signer, []saltpack.BoxPublicKey{boxPubFromBytes(boxPk(sk), false)}, nil)
+			if e1 != nil || e2 != nil {
+				fmt.Println("MISMATCH cannot build the shared-keyring fixtures:", e1, e2)
+				return 1
+			}
+			hidden = append(hidden, hiddenMsg{enc, sc, msg})
+		}
+	}
 	symKey, symID, otherBox := r.Bytes(32), r.Bytes(32), r.Bytes(32)
 	emptyRing := makeRing("_", "all", signersOf(fx[len(fx)-1].p))
 	payload := r.Bytes(500)
@@ -75,7 +103,7 @@ func raceWorker(seed uint64, iters, goroutines int) int {
 				i := rr.Intn(len(fx))
 				f := fx[i]
 				ring := rings[i]
-				switch rr.Intn(12) {
+				switch rr.Intn(13) {
 				case 0: // binary receive
 					switch f.p.name {
 					case "enc":
@@ -226,6 +254,14 @@ func raceWorker(seed uint64, iters, goroutines int) int {
 							fail("streaming encrypt/decrypt round trip: %v", err)
 						}
 					}
+				case 11: // opens that walk all the box keys of ONE shared basic.Keyring
+					hm := hidden[rr.Intn(len(hidden))]
+					if _, pt, err := saltpack.Open(saltpack.CheckKnownMajorVersion, hm.enc, sharedBasic); err != nil || !bytes.Equal(pt, hm.msg) {
+						fail("Open of a hidden-recipient message with the shared basic keyring: %v", err)
+					}
+					if _, pt, err := saltpack.SigncryptOpen(hm.sc, sharedBasic, nil); err != nil || !bytes.Equal(pt, hm.msg) {
+						fail("SigncryptOpen with the shared basic keyring: %v", err)
+					}
 				case 10: // the reader-taking entry points over a reader that offers Read only (a pipe, a socket:
 					// no WriteTo/ReadFrom shortcut, so the library's own copy loops and buffers are used)
 					switch f.p.name {
@@ -324,7 +360,7 @@ func init() {
 		return
 	}}
 	campaigns["C20"] = campaign{
-		rule: "cases: one run of the race worker per (GOMAXPROCS in {1,2,4,16}, seed): 16 goroutines (32 in thorough) each perform 150 (1500) operations drawn at random from all API families — Open/Verify/VerifyDetached/SigncryptOpen, their Dearmor62 forms, Armor62Seal/Open, basex encode/decode on the four shared encodings, IsSaltpackArmoredPrefix/BinarySlice/ClassifyStream, Seal+Open, SignArmor62+Dearmor62Verify, SigncryptArmor62Seal+open round trips with fresh randomness, MakeArmorHeader/CheckArmor62, and the reader/writer-taking entry points (VerifyDetachedReader, Dearmor62VerifyDetachedReader, NewVerifyStream, NewDearmor62DecryptStream, NewSigncryptOpenStream, NewSignDetachedStream) over readers and writers that offer only Read/Write — on shared keys, keyrings and package-level state, with random start offsets; the binary is built with -race; every result is compared with the value computed sequentially beforehand; any race report or differing result is a violation.",
+		rule: "cases: one run of the race worker per (GOMAXPROCS in {1,2,4,16}, seed): 16 goroutines (32 in thorough) each perform 150 (1500) operations drawn at random from all API families — Open/Verify/VerifyDetached/SigncryptOpen, their Dearmor62 forms, Armor62Seal/Open, basex encode/decode on the four shared encodings, IsSaltpackArmoredPrefix/BinarySlice/ClassifyStream, Seal+Open, SignArmor62+Dearmor62Verify, SigncryptArmor62Seal+open round trips with fresh randomness, MakeArmorHeader/CheckArmor62, and the reader/writer-taking entry points (VerifyDetachedReader, Dearmor62VerifyDetachedReader, NewVerifyStream, NewDearmor62DecryptStream, NewSigncryptOpenStream, NewSignDetachedStream) over readers and writers that offer only Read/Write, and hidden-recipient / signcryption opens through one shared basic.Keyring holding four keys — on shared keys, keyrings and package-level state, with random start offsets; the binary is built with -race; every result is compared with the value computed sequentially beforehand; any race report or differing result is a violation.",
 		gen: func(h *H) {
 			iters, gor := "150", "16"
 			seeds := 1
